@@ -172,7 +172,7 @@ Proof.
       destruct (negb (path_ok (kr_path kr))); [discriminate|].
       destruct (negb (xfp_ok (kr_xfp kr))); [discriminate|].
       destruct (hdparse (kr_xpub kr)) as [[xp n']|]; [|discriminate]. cbn [bind] in *.
-      destruct (Z.eqb_spec n n') as [<-|N]; [|discriminate]. cbn [negb] in H.
+      destruct (Z.eqb_spec n n') as [EQ|N]; [|discriminate]. subst n'. cbn [negb] in H.
       destruct (check_recs path_ok hdparse (Some n) l) as [[rs' nf']|] eqn:E; [|discriminate].
       cbn [bind] in H. apply Ok_inj in H. injection H as <- <-.
       destruct (IH2 rs' nf' eq_refl) as [F [-> ->]].
